@@ -292,7 +292,7 @@ func visitInstr(fr *frame, instr ssa.Instruction) continuation {
 	case *ssa.Store:
 		switch addr := fr.get(instr.Addr).(type) {
 		case symElemPtr:
-			addr.store(fr.get(instr.Val))
+			addr.store(mustDeref(instr.Addr.Type()), fr.get(instr.Val))
 		case *value:
 			if addr == nil {
 				panic(runtimePanic("invalid memory address or nil pointer dereference"))
@@ -386,6 +386,10 @@ func visitInstr(fr *frame, instr ssa.Instruction) continuation {
 		fr.env[instr] = fr.get(instr.Iter).(iter).next()
 
 	case *ssa.FieldAddr:
+		if sp, ok := fr.get(instr.X).(symElemPtr); ok {
+			fr.env[instr] = sp.field(instr.Field)
+			break
+		}
 		px := fr.get(instr.X).(*value)
 		if px == nil {
 			panic(runtimePanic("invalid memory address or nil pointer dereference"))
@@ -407,6 +411,9 @@ func visitInstr(fr *frame, instr ssa.Instruction) continuation {
 				panic(runtimePanic("invalid memory address or nil pointer dereference"))
 			}
 			elems = (*x).(array)
+		case symElemPtr: // pointer to one of several arrays
+			fr.env[instr] = x.index(asInt64(fr.i.ex.Concretize(idx)))
+			return kNext
 		default:
 			panic(fmt.Sprintf("unexpected x type in IndexAddr: %T", x))
 		}
@@ -420,7 +427,7 @@ func visitInstr(fr *frame, instr ssa.Instruction) continuation {
 		case array:
 			switch p := indexAddr(fr, x, idx).(type) {
 			case symElemPtr:
-				fr.env[instr] = p.load()
+				fr.env[instr] = p.load(instr.Type())
 			case *value:
 				fr.env[instr] = *p
 			}
@@ -433,7 +440,7 @@ func visitInstr(fr *frame, instr ssa.Instruction) continuation {
 				}
 				switch p := indexAddr(fr, elems, si).(type) {
 				case symElemPtr:
-					fr.env[instr] = p.load()
+					fr.env[instr] = p.load(instr.Type())
 				case *value:
 					fr.env[instr] = *p
 				}
